@@ -1,11 +1,11 @@
 CONSTANTS
-  TinyErr = -10000
+  TinyErrNeg = 10000
   QMax = 20000
   BiBound = 20
-  RefBound = -9000
-  OptBound = -9000
-  TermBound = -10000
-  TermBoundCxL = -7000
+  RefBoundNeg = 9000
+  OptBoundNeg = 9000
+  TermBoundNeg = 10000
+  TermBoundCxLNeg = 7000
 INIT TInit
 NEXT TNext
 INVARIANT Verdict
